@@ -99,15 +99,28 @@ def write_progs(ctx, name, trees):
     return path
 
 
+BATCH = 1500     # executions per trace file: TLC cannot handle behaviours (= trace lines here) beyond 65535 states once its
+                 # state queue spills to disk, so long runs are cut into several traces
+
+
 def validate(ctx, exe, jobs, tag, what):
-    jp = ctx.tmp(tag + ".jsonl")
-    with open(jp, "w") as f:
-        for j in jobs:
-            f.write(json.dumps(j) + "\n")
-    tr = ctx.tmp(tag + ".ndjson")
-    ok, n = vlib.record_and_validate(ctx, exe, ["run", jp, tr], tr, "Flow", "Trace_ActionTree.tla", "Trace_ActionTree.cfg", what,
-                                     timeout=1500)
-    return ok, n, tr
+    ok_all, n_all, tr = True, 0, None
+    nb = (len(jobs) + BATCH - 1) // BATCH
+    for b in range(nb):
+        part = jobs[b * BATCH:(b + 1) * BATCH]
+        t = tag if nb == 1 else "%s_%d" % (tag, b)
+        jp = ctx.tmp(t + ".jsonl")
+        with open(jp, "w") as f:
+            for j in part:
+                f.write(json.dumps(j) + "\n")
+        tr = ctx.tmp(t + ".ndjson")
+        ok, n = vlib.record_and_validate(ctx, exe, ["run", jp, tr], tr, "Flow", "Trace_ActionTree.tla", "Trace_ActionTree.cfg",
+                                         what if nb == 1 else "%s [%d/%d]" % (what, b + 1, nb), timeout=1500)
+        ok_all = ok_all and ok
+        n_all += n
+        if not ok:
+            break
+    return ok_all, n_all, tr
 
 
 def jobs_from_behaviours(progs, behs, extra=6):
@@ -247,7 +260,7 @@ def run_checked(ctx):
         passes = rnd.choice((5, 6, 8))
         jobs.append({"prog": P.flatten(t), "script": P.random_script(rnd, passes), "passes": passes + 5})
     ok, n, tr = validate(ctx, exe, jobs, "random", "seeded random programs (depth <= 3, <= 6 leaves, timeouts, Sleep/Function leaves)")
-    first = vlib.read_lines(tr, 1, 6)
+    first = vlib.read_lines(ctx.tmp("random.ndjson") if len(jobs) <= BATCH else ctx.tmp("random_0.ndjson"), 1, 6)
     ctx.sample({"kind": "recorded trace (first events)", "events": [json.loads(x) for x in first]})
 
     ctx.assumptions = [
